@@ -271,7 +271,8 @@ func (pl *Plan) Datagram(r *hx.Rng, p *Peer, refs []int64) Dgram {
 		return d
 	}
 	d.Cls = int64(r.Pick(4, 3, 3, 4, 2))
-	if lf == &NMLocal || (lf == nil && r.Chance(1, 4)) {
+	// node management payloads go to node management, to unknown destinations, and now and then to any feature
+	if lf == &NMLocal || (lf == nil && r.Chance(1, 4)) || r.Chance(1, 12) {
 		d.Pl.Kind = int64(r.Pick(2, 3, 3, 3, 2, 3, 2, 2, 2, 2))
 		if d.Pl.Kind != 0 && r.Chance(2, 3) {
 			// the classifier node management implements for this payload
